@@ -108,6 +108,9 @@ def stepSess {α} (o : NumOps α) (sh : α → String) (allow : Kind → Bool) (
   | ["rsub", c] => opt (parseRat? c) (fun c => compute sh s (fun t => rsubC o t (o.ofRat c))) s
   | ["rdiv", c] => opt (parseRat? c) (fun c => compute sh s (fun t => rdivC o t (o.ofRat c))) s
   | ["pow", n] => opt (parseNat? n) (fun n => compute sh s (fun t => powN o t n)) s
+  | ["powr", c] => opt (parseRat? c) (fun c => if allow .timeProb then compute sh s (fun t => powC o t (o.ofRat c)) else (s, "bad-op")) s
+  | ["rpowr", c] => opt (parseRat? c) (fun c => if allow .timeProb then compute sh s (fun t => rpowC o t (o.ofRat c)) else (s, "bad-op")) s
+  | ["draws", l] => opt (parseRatList? l) (fun l => mutate sh s (fun t => scaleDraws o t (l.map o.ofRat))) s
   | ["iadd", c] => opt (parseRat? c) (fun c => mutate sh s (fun t => isetV o t (fun x => o.add x (o.ofRat c)))) s
   | ["isub", c] => opt (parseRat? c) (fun c => mutate sh s (fun t => isetV o t (fun x => o.sub x (o.ofRat c)))) s
   | ["imul", c] => opt (parseRat? c) (fun c => mutate sh s (fun t => isetV o t (fun x => o.mul x (o.ofRat c)))) s
@@ -130,6 +133,11 @@ def stepLine (st : St) (line : String) : St × String :=
       match parseORat? d1, parseORat? d2 with
       | some d1, some d2 =>
         (st, match timeRatio (parseUnit u1) d1 (parseUnit u2) d2 with | .ok r => "ok " ++ showRat r | .error e => showErr e)
+      | _, _ => (st, "bad-op")
+  | ["Q", "ratioint", u1, d1, u2, d2] =>
+      match parseORat? d1, parseORat? d2 with
+      | some d1, some d2 =>
+        (st, match timeRatioInt (parseUnit u1) d1 (parseUnit u2) d2 with | .ok r => "ok " ++ toString r | .error e => showErr e)
       | _, _ => (st, "bad-op")
   | ["Q", "norm", u] => (st, match canonUnit (parseUnit u) with | .ok r => "ok " ++ showUnit r | .error e => showErr e)
   | "Q" :: ws => let (q, o) := stepSess ratOps showRat (fun k => k = .dur ∨ k = .rate) st.q ws; ({ st with q := q }, o)
